@@ -10,7 +10,7 @@ Theorem C06_foreign_noguess : forall f orc t,
   wf_file f = true -> oracle_ok_file orc f ->
   (Z.of_nat (length (render_file f)) <= sys_maxsize)%Z ->
   dom_read orc (render_file f) = Ok t ->
-  opts_known f = true -> no_meta_line_endings f = true -> choice_values_ok f = true ->
+  opts_known f = true -> choice_values_ok f = true ->
   sub_metas_nonempty f = true -> metas_plain f = true ->
   exists b, dom_write t = Ok b /\ same_contents t (normalise t) /\
     (tree_oracle_ok orc t -> tree_metas_oracle_ok orc t ->
@@ -19,8 +19,8 @@ Theorem C06_foreign_noguess : forall f orc t,
      normalise (normalise t) = normalise t /\
      (forall b', dom_write (normalise t) = Ok b' -> dom_read orc b' = Ok (normalise t))).
 Proof.
-  intros f orc t Hwf Ho Hsz Hr H1 H2 H3 H4 H5.
-  destruct (DomForeignFacts.C06_foreign f orc t Hwf Ho Hsz Hr H1 H2 H3 H4 H5) as (b & Hw & Hs & Hrest).
+  intros f orc t Hwf Ho Hsz Hr H1 H3 H4 H5.
+  destruct (DomForeignFacts.C06_foreign f orc t Hwf Ho Hsz Hr H1 H3 H4 H5) as (b & Hw & Hs & Hrest).
   exists b. split; [exact Hw|]. split; [exact Hs|].
   intros Hto Hmo Hb. apply Hrest; try assumption.
   (* the tree that was read is tree_of_file f, whose encodings and indents are valid *)
@@ -28,6 +28,6 @@ Proof.
   rewrite Hr in Hread.
   destruct (dom_accepts f) eqn:Ha; [|discriminate Hread].
   injection Hread as ->.
-  destruct (DomForeignFacts.foreign_domain_wf f Hwf Ha H1 H2 H3 H4 H5) as (_ & He & Hi & _).
+  destruct (DomForeignFacts.foreign_domain_wf f Hwf Ha H1 H3 H4 H5) as (_ & He & Hi & _).
   exact (GuessFacts.tree_guesses_always _ b He Hi Hw).
 Qed.
